@@ -32,7 +32,7 @@ Inductive node : Type :=
 (* syn::TypeParamBound *)
 | NBoundTrait (bound_lts : list string) (path : node)
 | NBoundLifetime (lt : string)
-| NBoundOther.                               (* Verbatim | PreciseCapture: the code panics *)
+| NBoundOther.                               (* Verbatim | PreciseCapture (`use<..>`): contributes no use *)
 
 (** [Purpose::Declare] = true, [Purpose::BoundImpl] = false. *)
 Definition purpose := bool.
@@ -85,7 +85,7 @@ Section TypeParams.
     | NArgConstraint bs => all bs
     | NBoundTrait _ p => uses_tp p
     | NBoundLifetime _ => UOk []
-    | NBoundOther => UPanic "Unknown syn::TypeParamBound"
+    | NBoundOther => UOk []
     end.
 
   (** a collection (fields, variants): the union of the members' answers *)
@@ -122,7 +122,7 @@ Section Lifetimes.
     | NArgConstraint bs => all bs
     | NBoundTrait bl p => uapp (uses_lt p) (lts bl)
     | NBoundLifetime l => UOk (lt_hits set l)
-    | NBoundOther => UPanic "Unknown syn::TypeParamBound"
+    | NBoundOther => UOk []
     end.
 
   Definition collect_lt (l : list node) : ures := uconcat (map uses_lt l).
